@@ -2,6 +2,20 @@
 """tools/seed_table.py: the table of seeded changes for DESIGN.md section 0.5, from seeded/*/meta.json."""
 import json, os, re
 NOTES = {
+ 'C02-5': 'caught; harmless for C02 since repair d49b480 (from_bytes type-checks every item first; demo passes at HEAD), now caught by the C03 check instead (integral floats inside sysex data)',
+ 'C04-5': 'missed -> the parser is also read by get_message() until None, by a loop left early and resumed, and byte-wise',
+ 'C04-6': 'missed -> sysex messages of 65 534 .. 70 000 data bytes (implementation against the statement)',
+ 'C05-6': 'missed -> histories with an iterator kept alive across other calls (model layer i_run, theorem C05_live_iterator)',
+ 'C07-5': 'missed -> save/load under charsets other than latin-1/ASCII (implementation against the statement); the C17 job no longer dies on it',
+ 'C09-5': 'missed (quick tier) -> payloads of exactly the reader limit through the file reader in the quick tier too',
+ 'C09-6': 'missed -> non-integer items at every position of a sequencer_specific payload',
+ 'C11-6': 'missed (and made the C18 check hang) -> accept() hang guard; PortServer cases run in the C11 check',
+ 'C13-6': 'missed -> the file is re-observed after an in-place edit that keeps every track length',
+ 'C16-5': 'missed -> edits that keep length and total ticks of every track (ticks moved between neighbours, swap, reverse)',
+ 'C16-6': 'caught by disagreement only -> observation-is-pure oracle (tracks unchanged by observing / saving)',
+ 'C17-6': 'missed -> charsets that are not supersets of ASCII (utf-16-le/be, utf-32-be, utf-7) with plain texts',
+ 'C19-5': 'missed -> hex digits of a byte separated by whitespace, two one-digit tokens',
+ 'C19-6': 'missed -> files with more than 4096 messages',
  'C03-1': 'missed -> integral-valued floats added to the value universe',
  'C16-2': 'missed -> set_tempo messages and non-time attribute edits added to the histories',
  'C17-1': 'missed -> per-string probe after a failed call',
@@ -32,7 +46,7 @@ for s in sorted(os.listdir('/verif/seeded'), key=lambda x: (x.split('-')[0], int
     summ = summ if len(summ) < 150 else summ[:147] + '...'
     r = m.get('rechecked') or m.get('confirmed')
     tail = ' '.join(r.get('check_output_tail', []))
-    now = 'caught' if r.get('check_exit') == 1 else 'NOT CAUGHT'
+    now = 'caught' if r.get('check_exit') == 1 else ('passes (harmless for this property at HEAD; see first column)' if m.get('status_at_current_head') else 'NOT CAUGHT')
     if 'no-failing-input-found' in tail:
         now += ' (no-failing-input-found)'
     first = NOTES.get(s) or ('caught' if m.get('confirmed', {}).get('check_exit') == 1 else 'missed')
